@@ -101,6 +101,24 @@ def gen_program(rng, idx):
         actions += [lambda r, idx=idx: [('print', call('use%d' % idx))],
                     lambda r, cur=cur: [('print', call(cur))],
                     lambda r, idx=idx: [('expr', call('reset%d' % idx, I(r.choice([100, 200]))))]]
+    # a loop counter named like a captured variable: a loop-local for the duration of the loop only; after the loop the
+    # name means the captured variable again (read, and modify writing through to the owner)
+    if rng.random() < 0.5:
+        off = 'off%d' % idx
+        prog.append(('asg', off, 'int', I(rng.choice([100, 200]))))
+        sm = 'sumto%d' % idx
+        prog.append(('asg', sm, None, fn([('n', 'int')], 'int', [
+            ('asg', 'acc', None, I(0)),
+            ('from', I(1), ('bin', '+', V('n'), I(1)), False, None, off, False, [('asg', 'acc', None, ('bin', '+', V('acc'), V(off)))]),
+            ('ret', ('bin', '+', V('acc'), V(off)))])))
+        bump = 'bump%d' % idx
+        prog.append(('asg', bump, None, fn([], 'int', [
+            ('from', I(0), I(rng.randint(1, 3)), False, None, off, False, [('print', V(off))]),
+            ('mod', off, ('bin', '+', V(off), I(1))),
+            ('ret', V(off))])))
+        actions += [lambda r, sm=sm: [('print', call(sm, I(r.randint(0, 3))))],
+                    lambda r, bump=bump, off=off: [('print', call(bump)), ('print', V(off))],
+                    lambda r, off=off: [('asg', off, None, ('bin', '+', V(off), I(5)))]]
     for _ in range(rng.randint(4, 12)):
         prog += rng.choice(actions)(rng)
     # passing a closure as an argument
